@@ -302,7 +302,8 @@ def check_c06(ctx):
 
 C07_THEOREMS = ['BinlogVerif.C07.c07_render_refines', 'BinlogVerif.C07.c07_render_top', "BinlogVerif.C07.c07_render_top'",
                 'BinlogVerif.C07.c07_render_append', 'BinlogVerif.C07.c07_singular_render_const',
-                'BinlogVerif.C07.c07_message', 'BinlogVerif.C07.c07_message_pp', 'BinlogVerif.C07.c07_printStruct_declines',
+                'BinlogVerif.C07.c07_message', 'BinlogVerif.C07.c07_message_pp', 'BinlogVerif.C07.c07_render_refines_special',
+                'BinlogVerif.C07.c07_render_append_special', 'BinlogVerif.C07.c07_message_special', 'BinlogVerif.C07.c07_printStruct_declines',
                 'BinlogVerif.C07.c07_read_back', 'BinlogVerif.C07.c07_end_to_end', 'BinlogVerif.C07.c07_latest_writerProp',
                 'BinlogVerif.C07.c07_latest_clockSync']
 
